@@ -142,8 +142,9 @@ PROPS = {
             {"kind": "verus", "unit": "nlargest"},
             {"kind": "verus", "unit": "nlpre"},
             {"kind": "verus", "unit": "galloc"},
+            {"kind": "verus", "unit": "tabsize"},
         ],
-        "unreached": ["dyn_size of XStack (walks Rc strong counts), XMapping, XSet, Regex; that every container value is built through ManagedXValue::new (argued from the private fields of the struct); the pre-flight checks of the individual natives (V-intops decides those of the integer builtins, V-nlargest the capacity request of n_largest / n_smallest)"],
+        "unreached": ["dyn_size of XStack (walks Rc strong counts), Regex; that every container value is built through ManagedXValue::new (argued from the private fields of the struct); the pre-flight checks of the individual natives (V-intops decides those of the integer builtins, V-nlargest the capacity request of n_largest / n_smallest)"],
         "assumptions": [],
     },
     "C11": {
@@ -202,9 +203,11 @@ PROPS = {
             {"kind": "verus", "unit": "ggroup"},
             {"kind": "verus", "unit": "gchainarm"},
             {"kind": "verus", "unit": "grepeat"},
+            {"kind": "verus", "unit": "gsucc"},
+            {"kind": "verus", "unit": "gwithcount"},
         ],
         "unreached": [
-            "the adaptors SuccessorsUntil, Zip, WithCount, Product of XGenerator::_iter (Chain and Repeat: the closure handed to flat_map resp. the step function are under contract; that flat_map / from_fn concatenate / call them as documented is trusted); that std's filter_map / map_while / map / scan apply the step closure to every element in order (documented meaning, trusted); laziness / look-ahead of the other adaptors, re-iterability, the consumers join / the reducing ones (to_array, len, last, get, nth are under contract from the statement after the downcast), and the adaptors written in the xray language",
+            "the adaptors Zip, Product of XGenerator::_iter (SuccessorsUntil, WithCount: the step closures are under contract; Chain and Repeat: the closure handed to flat_map resp. the step function are under contract; that flat_map / from_fn concatenate / call them as documented is trusted); that std's filter_map / map_while / map / scan apply the step closure to every element in order (documented meaning, trusted); laziness / look-ahead of the other adaptors, re-iterability, the consumers join / the reducing ones (to_array, len, last, get, nth are under contract from the statement after the downcast), and the adaptors written in the xray language",
         ],
         "assumptions": ["V-gstep: the evaluator as a deterministic function `apply`; predicates answer a Bool (type fact, C01); std's filter_map / map_while / map / scan apply the closure to each element in order",
                         "std::iter::Iterator::{skip, take} by their documented meaning on a sequence view (finite-prefix model of a stream)",
@@ -319,7 +322,7 @@ CLAIMS = {
     },
     "C09": {
         "engine": "kani",
-        "technique": "contract-based deductive verification: Kani (CBMC) loop-free full-domain harnesses in contract form on Runtime::{allocate, deallocate, can_allocate_by}; Verus contracts on the real text of XValue::size, FencedString::size, the dyn_size arms of XSequence / XGenerator, and ManagedXValue / ManagedXError::{new, drop} over a ghost ledger of the accounted total",
+        "technique": "contract-based deductive verification: Kani (CBMC) loop-free full-domain harnesses in contract form on Runtime::{allocate, deallocate, can_allocate_by}; Verus contracts on the real text of XValue::size, FencedString::size, the dyn_size arms of XSequence / XGenerator, the dyn_size of XMapping / XSet, and ManagedXValue / ManagedXError::{new, drop} over a ghost ledger of the accounted total",
         "text": "The accounting primitives are proved against one-step contracts for every limit, accounted size and request: Ok adds exactly the size and stays within the limit, Err leaves the total unchanged, deallocate returns exactly the size, allocate-then-drop is the identity, and raising the limit never turns Ok into Err. The accounted size of a value (XValue::size) is proved to be size_of::<XValue>() plus its payload: the bytes of a string's buffer plus its character index, one word per struct field, the reported size of a big integer or native value; the dyn_size of array / zip / chain sequences and generators is at least one word per element held. ManagedXValue::new and ManagedXError::new are proved to record exactly the amount Runtime::allocate added (nothing on failure) and their Drop impls to return exactly the recorded amount.",
         "note": "Decides the primitives and the size function of XValue/FencedString: the dyn_size/full_size impls of native values, that every container goes through ManagedXValue::new, and the natives' pre-flight checks are unreached. Trusted: Kani/CBMC, in-crate build substitutions.",
     },
